@@ -172,15 +172,43 @@ class HBytes(object):
 
 
 class HDict(object):
-    """Ordered dict: keys (Seq K, distinct, insertion order) + one Array per value component."""
-    def __init__(self, ktype, vtype, keys, maps):
+    """Ordered dict: keys (Seq K, distinct, insertion order) + one Array per value component
+    + a membership Array."""
+    def __init__(self, ktype, vtype, keys, maps, mem=None):
         self.ktype = ktype
         self.vtype = vtype
         self.keys = keys
         self.maps = list(maps)
 
+    @property
+    def mem(self):
+        """membership Array K -> Bool of the current key sequence (see memof)"""
+        return None if self.ktype is None else memof(self.keys)
+
     def copy(self):
         return HDict(self.ktype, self.vtype, self.keys, self.maps)
+
+    def set_empty(self):
+        self.keys = z3.Empty(z3.SeqSort(sort_of(self.ktype)))
+
+
+def memof(keys):
+    """`k in d` is Select(memof(keys), k): memof maps a key sequence to its membership array.  It is an
+    uninterpreted function (equal key sequences have equal membership by congruence) whose defining
+    facts are added as *instances* for the terms that occur in a query (verify.mem_axioms):
+        memof(empty) = K(false);   memof(s ++ [k]) = store(memof(s), k, true);
+        memof(s)[k]  ==>  0 <= idxof(s, k) < len(s)  and  s[idxof(s, k)] = k;     (0 <= i < len(s)  ==>  memof(s)[s[i]]  at loops)
+    This keeps seq.contains over (Seq String), which both solvers handle badly, out of the queries."""
+    ks = keys.sort()
+    es = ks.basis()
+    f = z3.Function('memof_%s' % es.name(), ks, z3.ArraySort(es, z3.BoolSort()))
+    return f(keys)
+
+
+def idxof(keys, k):
+    ks = keys.sort()
+    f = z3.Function('idxof_%s' % ks.basis().name(), ks, ks.basis(), z3.IntSort())
+    return f(keys, k)
 
 
 # ----------------------------------------------------------------- types
